@@ -10,7 +10,7 @@ compares every outcome with the same call made alone in a FRESH process, and
 validates the recorded event traces against the specification with TLC
 (Trace_C08).
 """
-import json, os, random, subprocess, sys
+import json, os, random, subprocess, sys, time
 import vlib
 from vlib import Check, ToolError
 
@@ -318,6 +318,47 @@ def suite_part(ck, selftest=False):
                          res["violated"] or "trace rejected", k, json.dumps(trace[min(k - 1, len(trace) - 1)])), case_key="suite-trace")
 
 
+
+def proof_part(ck, tier, selftest=False):
+    """TLAPS: the machine-checked proof (spec/proofs/CacheProof.tla) that Cache.tla has Purity, MutualExclusion and
+    CacheFaithful for every thread set, plan, call table and file table, given PoisonRecovery = TRUE.  The proof is
+    about the same module the traces of the real code are validated against.  Negative control (thorough tier):
+    without the assumption PoisonRecovery = TRUE the proof must NOT go through (that is defect D1)."""
+    import re, shutil
+    tl = shutil.which("tlapm")
+    if not tl:
+        ck.notes["tlaps"] = "tlapm not installed: proof not replayed"
+        return
+    def run(tag, mutate=None):
+        d = os.path.join(vlib.WORK, "c08", "proof_" + tag)
+        shutil.rmtree(d, ignore_errors=True)
+        os.makedirs(d)
+        shutil.copy(os.path.join(vlib.SPEC, "Cache.tla"), d)
+        src = open(os.path.join(vlib.SPEC, "proofs", "CacheProof.tla")).read()
+        if mutate:
+            src = mutate(src)
+        open(os.path.join(d, "CacheProof.tla"), "w").write(src)
+        t0 = time.time()
+        pr = vlib.sh([tl, "--threads", "8", "--stretch", "3", "--cleanfp", "CacheProof.tla"], cwd=d, timeout=1500)
+        out = pr.stdout + "\n" + pr.stderr
+        m = re.search(r"All (\d+) obligations? proved", out)
+        f = re.search(r"(\d+)/(\d+) obligations? failed", out)
+        shutil.rmtree(os.path.join(d, ".tlacache"), ignore_errors=True)
+        return {"proved_all": bool(m) and pr.returncode == 0, "obligations": int(m.group(1)) if m else (int(f.group(2)) if f else 0),
+                "failed": int(f.group(1)) if f else 0, "wall_s": round(time.time() - t0, 1), "tail": out[-600:]}
+    r = run("main")
+    vlib.log("[tlaps] CacheProof: %s" % {k: v for k, v in r.items() if k != "tail"})
+    if not r["proved_all"] or "OMITTED" in open(os.path.join(vlib.SPEC, "proofs", "CacheProof.tla")).read():
+        raise ToolError("TLAPS proof of Cache.tla did not go through (%d failed):\n%s" % (r["failed"], r["tail"]))
+    ck.notes["tlaps"] = {"theorem": "Spec => [](Purity /\\ MutualExclusion /\\ CacheFaithful), any Threads / PlanSet / CallDef / Files, PoisonRecovery = TRUE",
+                         "obligations_proved": r["obligations"], "wall_s": r["wall_s"]}
+    if tier == "thorough" or selftest:
+        n = run("neg", lambda src: src.replace("/\\ PoisonRecovery = TRUE", "/\\ PoisonRecovery \\in BOOLEAN"))
+        vlib.log("[tlaps] negative control: %s" % {k: v for k, v in n.items() if k != "tail"})
+        if n["proved_all"]:
+            raise ToolError("TLAPS negative control: the proof goes through without PoisonRecovery = TRUE (vacuous proof?)")
+        ck.notes["tlaps"]["negative_control"] = "without PoisonRecovery = TRUE %d of %d obligations fail (AcquireQ / AcquireS)" % (n["failed"], n["obligations"])
+
 def main(tier, replay=None, selftest=False):
     ck = Check(PROP, tier)
     vlib.build_harness()
@@ -466,6 +507,7 @@ def main(tier, replay=None, selftest=False):
                          res_t["violated"] or "event rejected", json.dumps(trace[start]["plan"]), ctx[-1] if ctx else None),
                      case_key="trace")
     suite_part(ck, selftest)
+    proof_part(ck, tier)
     ck.assumptions += [
         "unordered-collection nondeterminism is detected probabilistically (%d fresh processes per call; the operation uses 4 enums, 4 inputs, 4 fragments, 2 custom scalars)" % nfresh,
         "schedules are orders of cache-lock acquisitions forced by the turn-taking hook; free-running runs are validated against the specification, not compared with a fixed order",
